@@ -30,6 +30,20 @@ Record iface := mkIface {
   if_ovf_panics : bool
 }.
 
+(* facts about the code that the model is parametrised by; regenerated from the
+   sources on every run (tools/gen_engine.py -> Gen/EngineGen.v) *)
+Record switches := mkSwitches {
+  sw_alias_current : bool;             (* copy_and_start_patching inserts the current flow into named_flows *)
+  sw_warnings_cleared : bool;          (* warnings are cleared after delivery to the handler *)
+  sw_observer_removal_checked : bool;  (* remove_variable_observer tests membership instead of unwrap() *)
+  sw_remove_flow_checked : bool;       (* remove_flow_internal does not unwrap a missing map *)
+  sw_ovf_panics : bool;                (* unchecked i32 seed arithmetic (debug build) *)
+  sw_cont_check_first : bool;          (* continue_internal tests can_continue before counters/flags *)
+  sw_path_validated_first : bool;      (* choose_path_string resolves the path before modifying state *)
+  sw_eval_args_first : bool;           (* evaluate_function validates arguments before modifying state *)
+  sw_ext_guard_fixed : bool            (* string-evaluation guard refuses the NOT-lookahead-safe function *)
+}.
+
 (* i32 addition as the seed computations of control_logic.rs / story/mod.rs do it *)
 Definition i32_add (I : iface) (site : string) (a b : Z) : Res Z :=
   if in_i32 (a + b) then Ok (a + b)%Z
